@@ -698,7 +698,8 @@ func semIsoSupported(fn *ssa.Function) bool {
 
 // semIsoPair runs the REAL zipper on (old, new); when it reports the pair preserved with every
 // instruction matched, the zipper's own maps must pass the model's isoCheck (hypothesis of
-// C04_sem_iso_same_behaviour).
+// C04_sem_iso_same_behaviour) and zipperAccepts (hypothesis of C04_zipper_verdict_sound: every pair
+// equivalent, enforceControlFlow undoes nothing, go/ssa's block shape and consistent edge lists).
 func semIsoPair(c *Ctx, what string, oldFn, newFn *ssa.Function, src string) error {
 	// the bookkeeping and control-flow oracle on the zipper's final maps (every pair, preserved or not)
 	checkZipper(oldFn, newFn, func(cls, d string, extra map[string]interface{}) {
@@ -767,9 +768,18 @@ func semIsoPair(c *Ctx, what string, oldFn, newFn *ssa.Function, src string) err
 	}
 	c.Res.Evaluations++
 	c.Count("iso_checked_" + what)
-	if got := outs[len(outs)-1]; got != "1" {
-		c.ViolateNoInput("C04", "C04/preserved-without-isomorphism", fmt.Sprintf("%s %s: the zipper reports the pair preserved with every instruction matched, but its maps are not a control-flow respecting, order-preserving correspondence of equal operations (isoCheck = %s)", what, oldFn.Name(), got),
+	// answer: isoCheck, zipperAccepts, shapeCheck of both, cfgCheck of both
+	got := strings.Fields(outs[len(outs)-1])
+	if len(got) != 4 {
+		return fmt.Errorf("iso: unexpected answer %q", outs[len(outs)-1])
+	}
+	if got[0] != "1" {
+		c.ViolateNoInput("C04", "C04/preserved-without-isomorphism", fmt.Sprintf("%s %s: the zipper reports the pair preserved with every instruction matched, but its maps are not a control-flow respecting, order-preserving correspondence of equal operations (isoCheck = %s)", what, oldFn.Name(), got[0]),
 			map[string]interface{}{"broken": "hypothesis isoCheck of C04_sem_iso_same_behaviour on the real zipper's final maps", "function": oldFn.Name(), "instr_map": im, "block_map": bm, "source": src})
+	}
+	if got[1] != "1" {
+		c.ViolateNoInput("C04", "C04/preserved-without-accepted-verdict", fmt.Sprintf("%s %s: the zipper reports the pair preserved with every instruction matched, but the model of its own checks does not accept the maps (zipperAccepts = %s; block shape of go/ssa = %s, edge lists consistent = %s)", what, oldFn.Name(), got[1], got[2], got[3]),
+			map[string]interface{}{"broken": "hypothesis zipperAccepts of C04_zipper_verdict_sound on the real zipper's final maps", "function": oldFn.Name(), "instr_map": im, "block_map": bm, "source": src})
 	}
 	return nil
 }
